@@ -80,7 +80,16 @@ func runCase(ctx context.Context, s *hx.Session, tc tcase) error {
 	// ---- direct oracle: after every finished transaction, Count() == number of items a scan returns ----
 	prevOff := int64(0)
 	for i := range o.Counts {
-		off := o.Counts[i] - int64(len(o.Items[i]))
+		// real items only: when Count > 0 and the root node is empty (aftermath of a kept count delta, C06-F1), First()
+		// hands out the zero item of the empty root ("0=" with an empty value; generated keys are never 0): it is not
+		// an item of the store and must not shift the offset attributed to later transactions
+		n := 0
+		for _, it := range o.Items[i] {
+			if it != "0=" {
+				n++
+			}
+		}
+		off := o.Counts[i] - int64(n)
 		newOff := off - prevOff
 		prevOff = off
 		if newOff == 0 {
